@@ -17,7 +17,7 @@ Cfgs ==
   CASE CfgSet = "one"   -> {[kinds |-> <<"direct">>, limit |-> l, size |-> 8, pay |-> "scalar", static |-> FALSE] : l \in {None, 0, 8, 20}}
     [] CfgSet = "two"   -> {[kinds |-> ks, limit |-> l, size |-> 8, pay |-> "scalar", static |-> FALSE] :
                               ks \in {<<"direct", "direct">>, <<"direct", "pass">>, <<"direct", "buffer">>,
-                                      <<"buffer", "pass">>, <<"pass", "shared">>},
+                                      <<"buffer", "pass">>, <<"pass", "shared">>, <<"dbuffer", "direct">>, <<"dbuffer", "buffer">>},
                               l \in {None, 0, 7, 8, 16}}
     [] CfgSet = "three" -> {[kinds |-> ks, limit |-> l, size |-> 8, pay |-> "scalar", static |-> FALSE] :
                               ks \in {<<"direct", "pass", "direct">>, <<"direct", "buffer", "pass">>,
@@ -52,7 +52,7 @@ ReqTimes(k) ==
 
 DoGet ==
   /\ ~st.fin
-  /\ \E k \in Targets(cfg) : cfg.kinds[k] # "buffer" /\
+  /\ \E k \in Targets(cfg) : cfg.kinds[k] \notin {"buffer", "dbuffer"} /\
        \E t \in ReqTimes(k) :
           LET r == Get(cfg, st, k, t)
           IN /\ st' = r.st
